@@ -239,6 +239,23 @@ func (in *Interp) findStub(fn *ssa.Function, name string) stubFn {
 	return nil
 }
 
+// reportHang records a hang violation (the program can make no further progress) and ends the path.
+func (in *Interp) reportHang(msg string, fr *frame) {
+	if in.feasible() {
+		in.ensureModel()
+		site := "?"
+		if fr != nil && fr.caller != nil {
+			site = fr.caller.fn.String()
+		}
+		p := in.path
+		v := &Violation{Harness: in.harness, Kind: "hang", Msg: msg, Site: site, Tags: append([]string(nil), p.tags...),
+			ND: in.witness(p.model), Model: p.model, Stack: in.stackTrace()}
+		v.Key = violationKey(v)
+		p.violations = append(p.violations, v)
+	}
+	panic(pathEnd{EndViolation, msg})
+}
+
 func noop(in *Interp, fr *frame, a []Value) Value { return nil }
 
 // atomic helpers operate directly on the cell
@@ -408,9 +425,63 @@ var stubs = map[string]stubFn{}
 
 func init() {
 	s := stubs
+	// Mutexes: goroutines run one at a time in the engine, so a Lock on a mutex that is already held can never
+	// be released by anyone: the caller hangs (self-deadlock). That is reported as a "hang" violation.
+	lock := func(in *Interp, fr *frame, a []Value) Value {
+		p, _ := a[0].(*Value)
+		if p == nil {
+			in.rtPanic("invalid memory address or nil pointer dereference")
+		}
+		if in.env.locks[p] != 0 {
+			in.reportHang("deadlock: Lock of a sync mutex already held on this path", fr)
+		}
+		in.env.locks[p] = -1
+		return nil
+	}
+	unlock := func(in *Interp, fr *frame, a []Value) Value {
+		p, _ := a[0].(*Value)
+		if p == nil {
+			in.rtPanic("invalid memory address or nil pointer dereference")
+		}
+		if in.env.locks[p] != -1 {
+			panic(&GoPanic{Msg: "fatal error: sync: unlock of unlocked mutex", Runtime: true, Site: in.curSite(), Stack: in.stackTrace(), Val: Iface{T: in.runtimeErrT, V: "sync: unlock of unlocked mutex"}})
+		}
+		delete(in.env.locks, p)
+		return nil
+	}
+	rlock := func(in *Interp, fr *frame, a []Value) Value {
+		p, _ := a[0].(*Value)
+		if p == nil {
+			in.rtPanic("invalid memory address or nil pointer dereference")
+		}
+		if in.env.locks[p] == -1 {
+			in.reportHang("deadlock: RLock of a sync.RWMutex write-locked on this path", fr)
+		}
+		in.env.locks[p]++
+		return nil
+	}
+	runlock := func(in *Interp, fr *frame, a []Value) Value {
+		p, _ := a[0].(*Value)
+		if p == nil {
+			in.rtPanic("invalid memory address or nil pointer dereference")
+		}
+		if in.env.locks[p] <= 0 {
+			panic(&GoPanic{Msg: "fatal error: sync: RUnlock of unlocked RWMutex", Runtime: true, Site: in.curSite(), Stack: in.stackTrace(), Val: Iface{T: in.runtimeErrT, V: "sync: RUnlock of unlocked RWMutex"}})
+		}
+		in.env.locks[p]--
+		if in.env.locks[p] == 0 {
+			delete(in.env.locks, p)
+		}
+		return nil
+	}
+	s["(*sync.Mutex).Lock"] = lock
+	s["(*sync.Mutex).Unlock"] = unlock
+	s["(*sync.RWMutex).Lock"] = lock
+	s["(*sync.RWMutex).Unlock"] = unlock
+	s["(*sync.RWMutex).RLock"] = rlock
+	s["(*sync.RWMutex).RUnlock"] = runlock
 	for _, n := range []string{
-		"(*sync.Mutex).Lock", "(*sync.Mutex).Unlock", "(*sync.RWMutex).Lock", "(*sync.RWMutex).Unlock",
-		"(*sync.RWMutex).RLock", "(*sync.RWMutex).RUnlock", "(*sync.WaitGroup).Add", "(*sync.WaitGroup).Done",
+		"(*sync.WaitGroup).Add", "(*sync.WaitGroup).Done",
 		"(*sync.WaitGroup).Wait", "runtime.Gosched", "runtime.GC", "runtime.KeepAlive", "runtime.SetFinalizer",
 		"(*sync.WaitGroup).Go",
 	} {
